@@ -47,14 +47,14 @@ def snapshot(c):
             log.append({'op': 'bar', 'b': '', 'h': cm(v)})
         else:
             log.append({'op': op, 'b': str(v), 'h': 0})
-    return {'state': c.state, 'heights': [cm(h) for h in c.heights],
+    return {'state': c.state, 'heights': [cm(h) for h in c.heights], 'bar': cm(c.bar_height),
             'order': [str(x.bib) for x in c.jumpers], 'ranked': [str(x.bib) for x in c.ranked_jumpers],
             'j': j, 'log': log}
 
 
 def obs(snap):
     """The observables named by C02/C08 (trials are a function of the log)."""
-    return {'state': snap['state'], 'heights': snap['heights'],
+    return {'state': snap['state'], 'heights': snap['heights'], 'bar': snap['bar'],
             'cards': {b: v['card'] for b, v in snap['j'].items()},
             'bests': {b: v['best'] for b, v in snap['j'].items()},
             'places': {b: v['pub'] for b, v in snap['j'].items()}}
@@ -131,4 +131,4 @@ def round_trip(c, HJ):
         return {'ok': False, 'exc': type(e).__name__, 'snap': EMPTY}
 
 
-EMPTY = {'state': 'scheduled', 'heights': [], 'order': [], 'ranked': [], 'j': {}, 'log': []}
+EMPTY = {'state': 'scheduled', 'heights': [], 'bar': 0, 'order': [], 'ranked': [], 'j': {}, 'log': []}
